@@ -308,11 +308,15 @@ Definition step_efb (c : cfg) (m : efbuilder) (u mm : N) (acc : list N)
       end
   | 51 => (* extend vs: stops at the first rejected item *)
       let vs := nth 0 data [] in
-      let fix go (acc : list N) (vs : list N) : list N * bool :=
+      (* the acceptance rule of SeqSpec.efb_accepts, with the last value and the count carried along
+         (linear instead of quadratic in the number of items) *)
+      let fix go (racc : list N) (last cnt : N) (vs : list N) : list N * bool :=
           match vs with
-          | [] => (acc, true)
-          | v :: r => if SeqSpec.efb_accepts u mm acc v then go (acc ++ [v]) r else (acc, false)
+          | [] => (racc, true)
+          | v :: r => if (last <=? v) && (v <? u) && (cnt <? mm) then go (v :: racc) v (cnt + 1) r else (racc, false)
           end in
+      let go acc vs := let '(racc, ok) := go (rev_append acc []) (match last_opt acc with Some l => l | None => 0 end) (lenN acc) vs in
+                       (rev_append racc [], ok) in
       let '(acc', ok) := go acc vs in
       match efb_extend c m vs with
       | Panic => keep RPanic (SExact (if ok then ROk else RErr))
